@@ -32,6 +32,24 @@ var kindConverters = map[reflect.Kind]TypeConverter{
 	reflect.String:  &StringConverter{},
 }
 
+// basicTypes maps each scalar kind to the unnamed Go type of that kind.
+var basicTypes = map[reflect.Kind]reflect.Type{
+	reflect.Bool:    reflect.TypeOf(false),
+	reflect.Int:     reflect.TypeOf(int(0)),
+	reflect.Int8:    reflect.TypeOf(int8(0)),
+	reflect.Int16:   reflect.TypeOf(int16(0)),
+	reflect.Int32:   reflect.TypeOf(int32(0)),
+	reflect.Int64:   reflect.TypeOf(int64(0)),
+	reflect.Uint:    reflect.TypeOf(uint(0)),
+	reflect.Uint8:   reflect.TypeOf(uint8(0)),
+	reflect.Uint16:  reflect.TypeOf(uint16(0)),
+	reflect.Uint32:  reflect.TypeOf(uint32(0)),
+	reflect.Uint64:  reflect.TypeOf(uint64(0)),
+	reflect.Float32: reflect.TypeOf(float32(0)),
+	reflect.Float64: reflect.TypeOf(float64(0)),
+	reflect.String:  reflect.TypeOf(""),
+}
+
 var typeConverters = map[reflect.Type]TypeConverter{
 	reflect.TypeOf(byte(0)):              &ByteConverter{},
 	reflect.TypeOf(time.Time{}):          &TimeConverter{},
@@ -390,6 +408,12 @@ func SetTypeConverter(typ reflect.Type, conv TypeConverter) {
 func getTypeConverter(typ reflect.Type) (TypeConverter, error) {
 	kind := typ.Kind()
 	if conv, ok := kindConverters[kind]; ok {
+		// The scalar converters work with the unnamed type of their kind. A
+		// named type of that kind (time.Duration, type Level int, ...) is
+		// converted to and from it.
+		if basic, ok := basicTypes[kind]; ok && typ != basic {
+			return &NamedConverter{typ: typ, basicType: basic, inner: conv}, nil
+		}
 		return conv, nil
 	}
 	if conv, ok := typeConverters[typ]; ok {
@@ -452,6 +476,26 @@ func getTypeConverter(typ reflect.Type) (TypeConverter, error) {
 // intOutOfRange is the error for an integer that the target Go type cannot hold.
 func intOutOfRange(v int64, typ string) error {
 	return errz.TypeErrorf("type error: value %d out of range for %s", v, typ)
+}
+
+// NamedConverter adapts a scalar converter to a named type of the same kind,
+// for example time.Duration or "type Level int".
+type NamedConverter struct {
+	typ       reflect.Type // the named type
+	basicType reflect.Type // the unnamed type of the same kind
+	inner     TypeConverter
+}
+
+func (c *NamedConverter) To(obj Object) (interface{}, error) {
+	v, err := c.inner.To(obj)
+	if err != nil || v == nil {
+		return v, err
+	}
+	return reflect.ValueOf(v).Convert(c.typ).Interface(), nil
+}
+
+func (c *NamedConverter) From(obj interface{}) (Object, error) {
+	return c.inner.From(reflect.ValueOf(obj).Convert(c.basicType).Interface())
 }
 
 // BoolConverter converts between bool and *Bool.
